@@ -1,5 +1,7 @@
 """C02: conversion / cloning / transposition / permutation (E2 class level)"""
-from vlib import common as C, e2prop
+import os
+from vlib import common as C, e2prop, e3, e3run
+from checks import c02s
 
 
 def main():
@@ -20,6 +22,23 @@ def main():
     chk.bounds.append('E2 blocked slice: SparseMatrixBCSR<2,3> with 1..2 x 1..2 blocks and every pattern with 1..3 blocks: all 5 clone modes, conversion u64 -> u32 -> u64, every row x column permutation, construction from a Graph')
     chk.functions += ['LAFEM::SparseMatrixBCSR<SymReal,Index,2,3>::{clone (5 modes), convert(other index type), permute, SparseMatrixBCSR(Graph)}']
     e2prop.run_e2(chk, e2prop.e2_harness_path('c02b_e2.cpp'), 'c02b_e2', timeout=60, harness_args=[], max_group=1)
-    return chk.finish(
-        explanation='Bounded symbolic check: transposition, cloning, format/index-type conversion, permutation and layout rebuilding of the real LAFEM classes are executed for every pattern / mode / permutation inside the bound with symbolic values; the result must represent the same (resp. transposed, permuted) dense matrix for ALL values, have the correct dimensions and a structurally valid layout; clone aliasing is checked by pointer identity and by writing through the clone.',
-        rule=e2prop.E2_RULE, trusted=e2prop.E2_TRUSTED)
+    # structural slice (E3): column indices and permutations symbolic
+    bdir = C.mkdir(os.path.join(C.BUILD, 'C02', 'e3'))
+    mod, native, info = c02s.build(bdir)
+    chk.extra['ir'] = info
+    jobs = c02s.jobs(quick)
+    only = os.environ.get('C02_ONLY')
+    if only:
+        jobs = [j for j in jobs if only in j[0]]
+    chk.bounds.append('E3 structural slice: SparseMatrixCSR<double,u64> of 1..3 x 1..3 with <= %d entries, every row-length profile (incl. entry-free matrices and empty rows) concrete, ALL column indices symbolic (any strictly sorted in-range rows), values raw symbolic 64-bit patterns: transpose (both forms), clone(Deep), clone(Shallow) outliving the original; permute with symbolic row and column permutation arrays (any bijections) for rows*cols <= %d and <= %d entries' % ((5, 6, 3) if quick else (6, 9, 4)))
+    chk.assume('E3 structural slice: values are 64-bit patterns that the operations only move (never interpreted); row lengths are concrete per profile')
+    # vacuity guard: a deliberately wrong oracle (transpose claimed to be the identity) must be refuted with a concrete model
+    wj = [j for j in c02s.jobs(True) if '2x2 row lengths [1, 1]' in j[0] and j[2].get('op') == 0]
+    if wj:
+        w = wj[0]
+        Rw, _ = e3.run_case(mod, c02s.SIGS[w[1]], w[0], w[2], w[3], c02s.oracle_for('clone', 2, 2, w[2]['rowptr'], w[2]['colind'], w[2]['vals']), budget=60)
+        if not any(v['kind'] == 'property' for v in Rw.viol):
+            chk.error('E3 structural slice: deliberately wrong oracle (transpose == identity) was not refuted (vacuity guard)')
+    return e3run.run_jobs(chk, mod, native, jobs, info, quick, c02s.SIGS, 'c02s',
+        explanation='Bounded symbolic check: transposition, cloning, format/index-type conversion, permutation and layout rebuilding of the real LAFEM classes are executed for every pattern / mode / permutation inside the bound with symbolic values; the result must represent the same (resp. transposed, permuted) dense matrix for ALL values, have the correct dimensions and a structurally valid layout; clone aliasing is checked by pointer identity and by writing through the clone (E2: value identities are decided by identity of hash-consed terms since values only move). E3 structural slice: the real CSR transpose / clone / permute run in my IR symbolic executor with SYMBOLIC column indices and permutation arrays; on every path z3 decides that the result has a valid layout and that each of its entries is the transposed / same / permuted entry of the operand (presence and value bits), every memory access is bounds- and lifetime-checked.',
+        rule=e2prop.E2_RULE + '; E3 part: one obligation = one property of one path of one row-length profile (solver query pc && !property must be unsat)', trusted_extra=e2prop.E2_TRUSTED)
